@@ -6,6 +6,7 @@ package main
 import (
 	"fmt"
 	"go/types"
+	"os"
 	"strings"
 
 	"golang.org/x/tools/go/ssa"
@@ -19,6 +20,7 @@ func checkC17(c *Ctx, r *Report) {
 	r.floor("R17.1", 4)
 	r.floor("R17.2", 2)
 	r.floor("R17.3", 3)
+	r.floor("R17.8", 1)
 	c17Callbacks(c, r, "server")
 	c17Locks(c, r)
 	c17Structure(c, r)
@@ -544,6 +546,8 @@ func c17Structure(c *Ctx, r *Report) {
 	}
 	okOrder := storeTrue != nil && closeL != nil && (storeTrue.Block().Dominates(closeL.Block()) && storeTrue.Block() != closeL.Block() || before(storeTrue, closeL))
 	rep("R17.5", okOrder, fnID(sh), "Shutdown sets the shutdown flag before it closes the listener", "", "flag-after-close", c.pos(sh.Pos()))
+	r.instance("R17.8", 1)
+	c17ShutdownScan(c, r, sh, false)
 	// ---- R17.6 handle ----
 	h := c.fnMust("server", "*connection.handle")
 	r.funcs[fnID(h)] = true
@@ -607,3 +611,133 @@ func before(a, b ssa.Instruction) bool {
 	}
 	return false
 }
+
+// c17ShutdownScan: R17.8 — Shutdown reports "all idle" only if no connection of the scan was in
+// flight, and never closes a connection it saw in flight: with B = the in-flight flag read for
+// the connection of this iteration and P = the all-idle flag, on every back edge of the scan
+// loop the new flag value N satisfies N => P (the flag is only lowered inside a scan) and
+// N => !B; every Close of a connection inside the loop is reached only under !B.
+func c17ShutdownScan(c *Ctx, r *Report, sh *ssa.Function, control bool) map[string]bool {
+	fired := map[string]bool{}
+	id := fnID(sh)
+	rep := func(ok bool, what, detail, sig, pos string) {
+		if !ok {
+			fired[sig] = true
+		}
+		if control {
+			return
+		}
+		if ok {
+			r.ok("R17.8", id, what, pos, true)
+		} else {
+			r.fail("R17.8", id, what, pos, detail, sig)
+		}
+	}
+	an := &Analysis{ctx: c, u: newUniverse(), top: sh, logCalls: true}
+	fr := an.newFrame(sh, nil, nil)
+	fr.run(dnfTrue())
+	// B: result of the atomic load of a bool field of the ranged-over connection
+	var busy *CallRec
+	for _, cr := range an.calls {
+		if cr.frame != fr || cr.callee == nil || cr.callee.Name() != "Load" || cr.callee.Signature.Recv() == nil {
+			continue
+		}
+		if b, ok := cr.callee.Signature.Results().At(0).Type().Underlying().(*types.Basic); ok && b.Kind() == types.Bool && inLoop(cr.instr.Block()) {
+			busy = cr
+		}
+	}
+	if busy == nil {
+		rep(false, "Shutdown does not read a per-connection in-flight flag inside a loop", "", "no-inflight-read", c.pos(sh.Pos()))
+		return fired
+	}
+	bv, ok := busy.res.(ABool)
+	if !ok {
+		rep(false, "the in-flight flag read is not a boolean value", describeAV(busy.res), "inflight-not-bool", posOfCall(c, busy))
+		return fired
+	}
+	B := bv.f
+	// header phis of bool type in loops containing the read
+	nphi := 0
+	for _, b := range sh.Blocks {
+		for _, in := range b.Instrs {
+			ph, ok := in.(*ssa.Phi)
+			if !ok {
+				break
+			}
+			bt, isB := ph.Type().Underlying().(*types.Basic)
+			if !isB || bt.Kind() != types.Bool {
+				continue
+			}
+			pv, ok := fr.vals[ph].(ABool)
+			if !ok {
+				continue
+			}
+			hasBack := false
+			for i, p := range b.Preds {
+				if !isBackEdge(p, b) || !blockReaches(b, busy.instr.Block()) {
+					continue
+				}
+				// only edges of the loop that contains the read
+				if !(b.Dominates(busy.instr.Block())) {
+					continue
+				}
+				hasBack = true
+				var N *Form
+				switch ev := fr.val(ph.Edges[i]).(type) {
+				case ABool:
+					N = ev.f
+				}
+				st := fr.edge[[2]int{p.Index, b.Index}]
+				pos := c.pos(p.Instrs[len(p.Instrs)-1].Pos())
+				if pos == "-" || pos == "" {
+					pos = c.pos(ph.Pos())
+				}
+				if N == nil {
+					rep(false, "all-idle flag: back-edge value is not a tracked boolean", "", "flag-untracked", pos)
+					continue
+				}
+				if len(st) == 0 {
+					continue
+				}
+				if os.Getenv("MBDBG") != "" {
+					fmt.Fprintf(os.Stderr, "R17.8 edge %d->%d P=%s N=%s B=%s st=%s\n", p.Index, b.Index, pv.f.String(), N.String(), B.String(), st.String())
+				}
+				mono := true
+				for _, cj := range dnfAnd(dnfAnd(st, N.dnf(false)), pv.f.dnf(true)) {
+					if !infeasible(cj) {
+						mono = false
+					}
+				}
+				notBusy := true
+				for _, cj := range dnfAnd(dnfAnd(st, N.dnf(false)), B.dnf(false)) {
+					if !infeasible(cj) {
+						notBusy = false
+					}
+				}
+				rep(mono, "inside a scan the all-idle flag is only ever lowered (new => old on this back edge)", truncate(st.String(), 200), "flag-raised-in-scan", pos)
+				rep(notBusy, "the all-idle flag stays up only if this iteration's connection was not in flight (new => !inflight)", truncate(st.String(), 200), "flag-up-while-busy", pos)
+			}
+			if hasBack {
+				nphi++
+			}
+		}
+	}
+	if nphi == 0 {
+		rep(false, "no boolean loop-carried flag summarises the scan of the connections", "", "no-idle-flag", c.pos(sh.Pos()))
+	}
+	// in-flight connections are not closed
+	ncl := 0
+	for _, cr := range an.calls {
+		if cr.frame != fr || cr.method != "Close" || !inLoop(cr.instr.Block()) || !busy.instr.Block().Dominates(cr.instr.Block()) {
+			continue
+		}
+		ncl++
+		rep(cr.state.entailsForm(formNot(B)), "a connection is closed by Shutdown only when its in-flight flag was read as false", truncate(cr.state.String(), 200), "closes-inflight", posOfCall(c, cr))
+	}
+	if ncl == 0 {
+		rep(false, "Shutdown closes no idle connection", "", "no-idle-close", c.pos(sh.Pos()))
+	}
+	return fired
+}
+
+func inLoop(b *ssa.BasicBlock) bool { return blockReaches(b, b) }
